@@ -8,6 +8,7 @@ import (
 	"os/exec"
 	"path/filepath"
 	"strings"
+	"time"
 	"unicode"
 
 	"github.com/sahilm/fuzzy"
@@ -15,6 +16,7 @@ import (
 
 	"github.com/Vedant9500/WTF/internal/database"
 	"github.com/Vedant9500/WTF/internal/nlp"
+	"github.com/Vedant9500/WTF/internal/recovery"
 )
 
 // ---------------------------------------------------------------------------
@@ -35,6 +37,15 @@ type corpusT struct {
 	idx  map[*database.Command]int
 	cmds []database.Command // as given (before loading)
 	file string
+	// fresh builds another copy of a database that does not come from a file (struct literal, replaced at run time, built-in fallback)
+	fresh func() *database.Database
+}
+
+// builtCorpus wraps a database that was not produced by the YAML loader
+func builtCorpus(name string, mk func() *database.Database) *corpusT {
+	c := wrapCorpus(name, mk(), nil, "")
+	c.fresh = mk
+	return c
 }
 
 var certainTools = map[string]bool{"git": true, "docker": true, "curl": true, "python": true, "npm": true}
@@ -267,6 +278,31 @@ func getCorpus(name string) *corpusT {
 		c = loadCorpus("bigtie", cmds)
 	case "empty":
 		c = loadCorpus("empty", nil)
+	case "lit": // what a library user (or a test) writes: a literal command list, no loader
+		c = builtCorpus("lit", func() *database.Database { return &database.Database{Commands: mixCommands()} })
+	case "updated": // commands installed at run time through the caching layer
+		c = builtCorpus("updated", func() *database.Database {
+			db := &database.Database{Commands: mixCommands()[:1]}
+			database.VerifNewCachedDatabase(db, 10, 0).UpdateDatabase(mixCommands())
+			return db
+		})
+	case "fallback": // the built-in database the loader falls back to when no file loads
+		c = builtCorpus("fallback", func() *database.Database {
+			none := filepath.Join(tmpDir(), "no-such-dir", "commands.yml")
+			db, err := recovery.NewDatabaseRecovery(recovery.RetryConfig{MaxAttempts: 1, BaseDelay: time.Millisecond, MaxDelay: time.Millisecond, BackoffFactor: 1}).
+				LoadDatabaseWithFallback(none, none+".personal")
+			if err != nil || db == nil {
+				fatal("built-in fallback database: %v", err)
+			}
+			return db
+		})
+	case "alpha": // one entry per letter of the alphabet: every letter occurs in some query that has a lexical answer
+		var cmds []database.Command
+		for ch := 'a'; ch <= 'z'; ch++ {
+			w := strings.Repeat(string(ch), 3) + "tool"
+			cmds = append(cmds, database.Command{Command: "zq" + string(ch) + "x " + w + " | sort", Description: "Handle the " + w + " thing", Keywords: []string{w}})
+		}
+		c = loadCorpus("alpha", cmds)
 	case "uniq":
 		c = loadCorpus("uniq", uniqCommands())
 	case "plat":
@@ -361,6 +397,8 @@ func (s scenario) options() database.SearchOptions {
 				"move": 1.2, "service": 1.3, "file": 1.1, "directory": 1.2, "process": 1.3}
 		case 5: // what a Node.js project directory yields
 			o.ContextBoosts = map[string]float64{"npm": 2.0, "yarn": 2.0, "node": 1.8, "javascript": 1.5, "package": 1.3, "install": 1.3, "build": 1.3, "test": 1.3}
+		case 7: // words no command contains (a project type whose vocabulary the database does not know)
+			o.ContextBoosts = map[string]float64{"absentword": 1.5, "zzabsent": 2.0, "qqnowhere": 1.8}
 		default: // docker + go + kubernetes
 			o.ContextBoosts = map[string]float64{"docker": 2.0, "container": 1.8, "image": 1.5, "build": 1.5, "run": 1.3, "go": 2.0, "test": 1.5, "kubectl": 2.0,
 				"service": 1.3, "deploy": 1.3, "pod": 1.5}
